@@ -18,7 +18,8 @@ META = {
     'design_ref': '§6 C13',
 }
 REQUIRED = ['Librfn.C13.' + n for n in ('init_independent_of_prior', 'init_validates', 'encode_decode_id', 'encode_decode_canon', 'describes_file',
-                                        'set_num_frames_idempotent_in_frames', 'canon_made', 'd10_old_setNumFrames_breaks_roundtrip',
+                                        'set_num_frames_idempotent_in_frames', 'canon_made', 'decode_encode_id', 'encBytes_decoded',
+                                        'normalised_plain', 'normalised_skip', 'd10_old_setNumFrames_breaks_roundtrip',
                                         'd4_old_init_depends_on_prior', 'd3_old_init_chunk_size')]
 # byte-order lemmas proved by bv_decide (axioms `<lemma>._native.bv_decide.ax_*`) and the C13 theorems that rest on them
 BV_LEMMAS = {'Librfn.C12.dec16_encU16le', 'Librfn.C12.dec32_encU32le', 'Librfn.Lemmas.WavCodec.enc_dec32', 'Librfn.Lemmas.WavCodec.enc_dec16'}
